@@ -1,8 +1,20 @@
 import RisorModel.Util
-/-! Line-protocol front end of the C04 model (stub until the model exists). -/
+import RisorModel.C04.Model
+/-! Line-protocol front end of the C04 model.
+  `stack <main|fn> <instruction text>` → `accept <max height> <n reachable>` | `reject <offset: reason>` | `error <decode problem>` -/
 namespace Risor.C04
 
 def handle : List String → String
-  | _ => "error\tnot-implemented"
+  | ["stack", kind, text] =>
+    match decode (kind == "main") text with
+    | .error e => "error\t" ++ e
+    | .ok c =>
+      match infer c with
+      | .error e => "reject\t" ++ e
+      | .ok cert =>
+        if check c cert then
+          "accept\t" ++ toString (maxCert cert) ++ "\t" ++ toString (cert.toList.filter Option.isSome).length
+        else "reject\tcertificate refused by the verified checker (end-of-code height or structure)"
+  | _ => "error\tunknown-request"
 
 end Risor.C04
